@@ -194,7 +194,13 @@ where
                 for _ in 0..n {
                     let op = *w.rng.pick(&[W::Load, W::LoadDrop, W::LoadDrop, W::LoadFull]);
                     w.budgets.set((B_R, 100_000));
-                    w.do_op(op);
+                    if w.rng.chance(1, 6) {
+                        // a read through a Cache is a load too (third-round seed C08p)
+                        w.do_cache_load();
+                        runner::count("c08.measured_cache_loads", 1);
+                    } else {
+                        w.do_op(op);
+                    }
                     w.budgets.set((100_000, 100_000));
                     let steps = w.last_steps.get();
                     runner::maximum(&format!("c08.max_load_steps.{}", sname_static(situation, 8)), steps as u64);
